@@ -2,7 +2,7 @@
     Directives: ExtrOcamlBasic (bool, option, list, prod, unit, sumbool -> OCaml's),
     ExtrOcamlString (ascii -> char, string -> char list). N/positive/nat stay inductive. *)
 From Coq Require Import Extraction ExtrOcamlBasic ExtrOcamlString.
-From IastRw Require Import Ast Generated Config ToConfig SrcMap Literals Model HookSites Known Directives Erase Sites Hygiene Shapes Order WfTree.
+From IastRw Require Import Ast Generated Config ToConfig SrcMap Literals Model HookSites Known Directives Erase Sites Hygiene Shapes Order WfTree Sem SemTie.
 Extraction Language OCaml.
 Extraction "../ocaml/model.ml"
   kind_of_string string_of_kind node_eqb node_size node_depth
@@ -15,4 +15,5 @@ Extraction "../ocaml/model.ml"
   to_config prologue_text
   decode_mappings chain lookup find_entry vlq_encode
   collect order_issues
-  wf_all has_optchain ns_count.
+  wf_all has_optchain ns_count
+  sem_tie plus_name.
